@@ -1,7 +1,4 @@
 // ---------------------------------------------------------------- U-mode specification (written from property C06 / C07)
-pub open spec fn sorted_tr(ts: Seq<(TerminalID, ScannerModeID)>) -> bool {
-    forall|i: int, j: int| 0 <= i < j < ts.len() ==> ts[i].0.0 < ts[j].0.0
-}
 
 /// the property's statement: r is the target of the transition configured for token type tt, if any
 pub open spec fn transition_of(ts: Seq<(TerminalID, ScannerModeID)>, tt: usize, r: Option<usize>) -> bool {
@@ -41,20 +38,6 @@ pub proof fn lemma_lookup_is(ts: Seq<(TerminalID, ScannerModeID)>, tt: usize, r:
     ensures tr_lookup(ts, tt) == r
 {
     lemma_transition_unique(ts, tt, r, tr_lookup(ts, tt));
-}
-
-pub open spec fn mode_wf(m: CompiledScannerMode, nmodes: int) -> bool {
-    &&& wf(core(m.dfa))
-    &&& sorted_tr(m.transitions@)
-    &&& forall|i: int| 0 <= i < m.transitions@.len() ==> (#[trigger] m.transitions@[i]).1.0 < nmodes
-}
-
-/// valid configuration: at least one mode, every mode well formed, transitions lead to existing modes,
-/// the class predicate is a total function
-pub open spec fn scanner_wf<M: Fn(CharClassID, char) -> bool>(s: ScannerImpl<M>) -> bool {
-    &&& s.scanner_modes@.len() >= 1
-    &&& forall|i: int| 0 <= i < s.scanner_modes@.len() ==> mode_wf(#[trigger] s.scanner_modes@[i], s.scanner_modes@.len() as int)
-    &&& cls_functional(&*s.match_char_class)
 }
 
 pub open spec fn mode_ok<M: Fn(CharClassID, char) -> bool>(s: ScannerImpl<M>) -> bool {
